@@ -18,8 +18,10 @@ CHECKS = {
     'C02': ('proof', 'parse_nmea_sentence is proved to return exactly the byte range between the start delimiter and the first following * and the hex value after the '
             'terminating *; AisParser::parse is proved to return Err(Checksum{expected, found}) with unchanged state exactly when xor(range) differs; check_checksum itself is a '
             'Kani bounded stand-in (<= 64 bytes); that Error::Checksum has a single construction site is checked syntactically.', '4 C02'),
-    'C03': ('proof', 'Verus proves for every length: Ok exactly for strings over the armoring alphabet, result length ceil(6n/8), all indexing/shift safety; bit-exactness of the '
-            'packing and fill masking is a Kani obligation per concrete length (bounded stand-in n <= 12 quick, all contents and fill counts).', '4 C03'),
+    'C03': ('proof', 'Verus proves unarmor for every length, content and fill count 0..=5: Ok exactly for strings over the armoring alphabet; result length ceil(6n/8); '
+            'every output bit (MSB first) equals the corresponding bit of the concatenated 6-bit values, with the last fill bits of those 6n bits and every bit beyond 6n zero '
+            '(loop invariant `packed` + bit-vector lemmas for the four shift phases and the two masking cases); index / shift safety and termination. Kani harnesses per concrete '
+            'length are kept as an independent bounded cross-check.', '0.2 / 4 C03'),
     'C04': ('proof', 'One Verus postcondition per field per message type (offsets/widths from ITU-R M.1371-5), universally quantified over payload contents and length, carried '
             'through parse_base -> <T as AisMessageType>::parse -> messages::parse.', '4 C04'),
     'C05': ('proof', 'AisParser::parse is proved against an abstract transition function `step` written from the property (all parser states, all lines); history-level lemmas '
